@@ -478,6 +478,27 @@ pub fn special_cases() -> Vec<(String, Vec<u8>)> {
         fb.finish_table(&[("Root", Val::r(1))], Split::Runs);
         v.push(("page-tree-counts-overflow-u32".into(), fb.bytes()));
     }
+    // page trees that are DAGs: every node lists the same next node several times and overstates its /Count, the last
+    // level holds no page; a look-up that does not give up at the first empty branch visits fanout^levels nodes
+    for (fanout, levels) in [(2usize, 8usize), (2, 15), (4, 7), (8, 14), (8, 15), (40, 15)] {
+        for leaf_count in [1i64, 0] {
+            let mut fb = FileBuilder::new(b"");
+            fb.add(1, 0, &Val::dict(vec![("Type", Val::name("Catalog")), ("Pages", Val::r(2))]));
+            for l in 0..levels {
+                let nr = 2 + l as u64;
+                let mut d = vec![("Type", Val::name("Pages")), ("Count", Val::Int(if l + 1 == levels { leaf_count } else { 1 }))];
+                if l > 0 {
+                    d.push(("Parent", Val::r(nr - 1)));
+                } else {
+                    d.push(("MediaBox", Val::ints(&[0, 0, 9, 9])));
+                }
+                d.push(("Kids", Val::Array(if l + 1 == levels { vec![] } else { vec![Val::r(nr + 1); fanout] })));
+                fb.add(nr, 0, &Val::dict(d));
+            }
+            fb.finish_table(&[("Root", Val::r(1))], Split::Runs);
+            v.push((format!("page-tree-dag-fanout-{}-levels-{}-last-count-{}", fanout, levels, leaf_count), fb.bytes()));
+        }
+    }
     // classic table oddities
     for (name, from, to) in [("table-count-huge", "0 3\n", "0 4294967295\n"), ("table-start-huge", "0 3\n", "4294967295 3\n"), ("table-offset-huge", "0000000009 00000 n", "9999999999 00000 n"), ("trailer-Size-negative", "/Size 3", "/Size -1"), ("trailer-Size-2^64", "/Size 3", "/Size 18446744073709551615"), ("trailer-Root-self", "/Root 1 0 R", "/Root 2 0 R"), ("startxref-huge", "startxref\n", "startxref\n99999999999999999999")] {
         let mut fb = FileBuilder::new(b"");
